@@ -58,6 +58,8 @@ impl<T> Sender<T> {
         // register the waker
         self.0.sender.register(cx.waker());
 
+        verif_failpoint!("spsc.send.poll_slice.after_register");
+
         // check once more to avoid a loss of notification
         acquire_capacity!();
 
